@@ -850,6 +850,20 @@ func c14CodecNames(c *an.Ctx, rule string, fields func(dst, src string) bool, mi
 		}
 		return strings.HasPrefix(k, "backendpb.") && !strings.Contains(c.Pos(fn.Pos()), ".pb.go:")
 	}, fields, map[string]string{
+		"access.ProfileConfig.AllowedASN <- backendpb.AccessSettings.AllowlistAsn":                                  "backend spelling: allowlist = allowed",
+		"access.ProfileConfig.BlockedASN <- backendpb.AccessSettings.BlocklistAsn":                                  "backend spelling: blocklist = blocked",
+		"agd.AuthSettings.PasswordHash <- backendpb.AuthenticationSettings.DohPasswordHash":                         "the only password is the DoH one",
+		"access.ProfileConfig.AllowedASN <- profiledb/internal/filecachepb.Access.AllowlistAsn":                     "cache spelling: allowlist = allowed",
+		"access.ProfileConfig.AllowedNets <- profiledb/internal/filecachepb.Access.AllowlistCidr":                   "cache spelling: allowlist CIDRs = allowed subnets",
+		"access.ProfileConfig.BlockedASN <- profiledb/internal/filecachepb.Access.BlocklistAsn":                     "cache spelling: blocklist = blocked",
+		"access.ProfileConfig.BlockedNets <- profiledb/internal/filecachepb.Access.BlocklistCidr":                   "cache spelling: blocklist CIDRs = blocked subnets",
+		"agd.AuthSettings.PasswordHash <- profiledb/internal/filecachepb.AuthenticationSettings.DohPasswordHash":    "the only password is the DoH one",
+		"agd.RatelimitConfig.ClientSubnets <- profiledb/internal/filecachepb.Ratelimiter.ClientCidr":                "cache spelling: CIDRs = subnets",
+		"profiledb/internal/filecachepb.Access.AllowlistCidr <- access.ProfileConfig.AllowedNets":                   "cache spelling: allowlist CIDRs = allowed subnets",
+		"profiledb/internal/filecachepb.Access.BlocklistCidr <- access.ProfileConfig.BlockedNets":                   "cache spelling: blocklist CIDRs = blocked subnets",
+		"profiledb/internal/filecachepb.AuthenticationSettings.DohPasswordHash <- agd.AuthSettings.PasswordHash":    "the only password is the DoH one",
+		"profiledb/internal/filecachepb.Device.Authentication <- agd.Device.Auth":                                   "abbreviated field",
+		"profiledb/internal/filecachepb.Ratelimiter.ClientCidr <- agd.RatelimitConfig.ClientSubnets":                "cache spelling: CIDRs = subnets",
 		"filter/internal.ConfigCustom.ID <- backendpb.DNSProfile.DnsId":                                             "the custom filter is identified by its profile's DNS ID",
 		"filter.ConfigParental.AdultBlockingEnabled <- backendpb.ParentalSettings.BlockAdult":                       "backend spelling of the adult-blocking switch",
 		"filter.ConfigParental.SafeSearchGeneralEnabled <- backendpb.ParentalSettings.GeneralSafeSearch":            "backend spelling of general safe search",
